@@ -390,3 +390,52 @@ func TestC04Canonical(t *testing.T) {
 }
 
 func TestReplay(t *testing.T) { ev.Replay(t) }
+
+// FuzzFraming (thorough tier): arbitrary bytes as the body of a CER under
+// dict.Default, differential against the reference framer.
+func FuzzFraming(f *testing.F) {
+	seed := func(nodes ...*refcodec.Node) { f.Add(refcodec.EncodeAVPs(nodes), uint32(0)) }
+	evil := refcodec.EncodeAVP(&refcodec.Node{Code: 264, Flags: 0x40, Payload: []byte("evil")})
+	seed(&refcodec.Node{Code: 266, Flags: 0x40, Payload: append([]byte{0, 0, 0, 0}, evil...)}, &refcodec.Node{Code: 296, Flags: 0x40, Payload: []byte("realm")})
+	seed(&refcodec.Node{Code: 260, Flags: 0x40, Group: true, Children: []*refcodec.Node{{Code: 266, Flags: 0x40, Payload: refcodec.U32(10415)}, {Code: 258, Flags: 0x40, Payload: refcodec.U32(4)}}})
+	seed(&refcodec.Node{Code: 257, Flags: 0x40, Payload: refcodec.Address(8, []byte("123"))}, &refcodec.Node{Code: 55, Flags: 0x40, Payload: []byte{1, 2}})
+	seed(&refcodec.Node{Code: 264, Flags: 0xc0, Vendor: 10415, Payload: []byte("x")}, &refcodec.Node{Code: 279, Flags: 0x40, Group: true, Children: []*refcodec.Node{{Code: 279, Group: true}}})
+	f.Fuzz(func(t *testing.T, body []byte, app uint32) {
+		if len(body) > 1<<14 {
+			return
+		}
+		if app != 0 && app != 4 && app != 16777251 {
+			app = 0
+		}
+		c := Case{Dict: gen.DictChoice{Name: "default"}, Flags: 0x80, Cmd: 257, App: app}
+		p, cat, err := c.Dict.Load()
+		if err != nil {
+			t.Skip()
+		}
+		wire := append(refcodec.EncodeHeader(refcodec.Header{Version: 1, Flags: 0x80, Code: 257, App: app, Length: uint32(20 + len(body)), HopByHop: 1, EndToEnd: 2}), body...)
+		isGroup := func(code uint32, flags uint8, vendor uint32) bool {
+			v := uint32(0)
+			if flags&0x80 != 0 {
+				v = vendor
+			}
+			return cat.Resolve(app, code, v) == gen.TGrouped
+		}
+		want, ferr := refcodec.FrameTree(body, isGroup)
+		m, err := diam.ReadMessage(bytes.NewReader(wire), p)
+		if ferr != nil {
+			if !isLenient(ferr) && err == nil {
+				t.Fatalf("framing error accepted: %v\nwire % x", ferr, wire)
+			}
+			return
+		}
+		if err != nil {
+			if mayFailTyped(cat, app, want) {
+				return
+			}
+			t.Fatalf("well-framed body rejected: %v\nwire % x", err, wire)
+		}
+		if d := compare(cat, app, want, m.AVP, ""); d != "" {
+			t.Fatalf("%s\nwire % x", d, wire)
+		}
+	})
+}
